@@ -29,7 +29,7 @@ PLAN = {
         vacuity=[("lit_overflow_cancel", ["FixFifo"]), ("cancel4_d", ["FixCancelDefault"])],
     ),
     "C05": dict(
-        quick=[("smp4", dict(cap=1500)), ("smp_mixed", dict(cap=2500)), "poll_under_lp"],
+        quick=[("smp4", dict(cap=3000)), ("smp_mixed", dict(cap=4000)), "poll_under_lp"],
         thorough=["smp4", "smp_mixed", "poll_under_lp", ("smp5", dict(cap=20000, timeout=2400))],
         vacuity=[("smp_mixed", [], "mark-all-sampled")],
     ),
